@@ -226,7 +226,7 @@ def run(ctx):
     ]
     ctx.assumptions += [
         "PARTIAL: the slice / index theorems cover the modelled logic (reader line handling, value-dependent accessors and the validators calling them, padded-field slices, rune-guarded Parse functions); hangs are covered by the watchdog oracle only",
-        "C06_ops_total_partial: call sequences never panic on WELL-FORMED shapes (header, matching control, no nil entry / addenda element, no nil Batcher); the statement over ALL shapes is refuted (C06_ops_total_refuted); ill-formed shapes are produced by no reader, decoder or operation (C06_json_result_wf, C06_ops_result_total_partial) and are outside the property's domain; FlattenBatches additionally needs SEC codes NewBatch accepts (known finding panic:ach.mergeableBatcher.Consume)",
+        "C06_ops_total_partial: call sequences never panic on WELL-FORMED shapes (header, matching control, no nil entry / addenda element, no nil Batcher); the statement over ALL shapes is refuted (C06_ops_total_refuted); ill-formed shapes are produced by no reader, decoder or operation (C06_json_result_wf, C06_ops_result_total_partial) and are outside the property's domain; FlattenBatches included (C06_ops_total_all_partial; until fix 7eb521a1 it needed SEC codes NewBatch accepts)",
         "C06_json_total_partial: the struct decoding is encoding/json's; C06_handlers_total (phase 5): NACHA-text bodies are ANY line sequence read by the shape model of the Reader (C06_reader_inv, C06_reader_total, C06_reader_result_wf: the reader's 16 invariant-dependent entries are proved; 2 search-only entries remain: ReadFiles out[i], CheckRoutingNumber last byte); repository aliasing after POST …/balance is idealised as a copy",
         "reader model: a line is its record type plus the data the control flow reads from it; the line splitting of Read (bufio.ScanRunes, 94 runes, blank lines) and the fixed-width first line are phase 1 (C06_read_line_total…); a fixed-width first line is a line sequence that stops at the first record in error",
         "shapes abstract data: every data-dependent check of the source is an oracle bit; the theorems quantify over all oracles",
